@@ -183,6 +183,13 @@ def supCmd (cmd : String) (args : List String) : Option String :=
     let r := Sup.trun fl rtn Sup.tinit es
     let body := if r.2.isEmpty then "-" else "|".intercalate (r.2.map showTimed)
     some s!"{body} ;proto={showBool r.1.l.proto} link={showLink r.1.l.link} now={r.1.now}"
+  | "SUP0", [f, rt, evs] => do      -- the tree before the two C20 repairs (regression replays)
+    let fl ← parseFlavour f
+    let rtn ← rt.toNat?
+    let es ← parseEvs evs
+    let r := Sup.trunG false fl rtn Sup.tinit es
+    let body := if r.2.isEmpty then "-" else "|".intercalate (r.2.map showTimed)
+    some s!"{body} ;proto={showBool r.1.l.proto} link={showLink r.1.l.link} now={r.1.now}"
   | "WDCHECK", [rt, tc, td, now] => do
     let r := Sup.check (← rt.toNat?) { tCheck := ← tc.toNat?, tDisc := ← td.toNat? } (← now.toNat?)
     let o := match r.2 with | .idle => "idle" | .probe => "probe" | .drop => "drop"
